@@ -110,6 +110,14 @@ def check_circuit(case):
     got = c14.to_complex(np.asarray(got.array, dtype=object), env)
     same(got, ref, "gradient-vs-derivative-of-evaluation",
          "{} d/d{} at {} (mixed={})".format(common.show(d), var, env, mixed))
+    # the formal sum evaluated at the parameter values: substitute, then
+    # evaluate
+    pairs = [(c14.sym(k), v) for k, v in env.items()]
+    at = g.subs(pairs)
+    got_at = at.eval(mixed=mixed) if mixed else at.eval()
+    same(c14.to_complex(lib_array(got_at, ref), {}), ref,
+         "gradient-substituted-then-evaluated",
+         "{} d/d{} at {} (mixed={})".format(common.show(d), var, env, mixed))
     # independent numeric reference: central difference of O6 / O4
     evaluate = (lambda e: qsem.cq_eval(c14.subst_spec(spec, e))) if mixed\
         else (lambda e: qsem.pure_eval(c14.subst_spec(spec, e)))
